@@ -33,6 +33,7 @@ type config struct {
 	workers  int
 	budget   time.Duration // search budget (wall clock) after the build
 	verbose  bool
+	race     bool // also build the -race variant of the worker (lssim; thorough tier or VERIF_RACE=1)
 }
 
 // engineSpec is what an engine contributes to the driver.
@@ -118,6 +119,7 @@ func main() {
 		seed:     seed,
 		workers:  *workers,
 		verbose:  *verbose,
+		race:     os.Getenv("VERIF_RACE") == "1" || *tier == "thorough",
 	}
 	if cfg.tier != "quick" && cfg.tier != "thorough" {
 		die2("unknown tier %q", cfg.tier)
